@@ -257,6 +257,51 @@ def run(R: Run):
                                                         None if dim is None else (dim, dim))[0]))
             R.corr(f"c17 downshape {b} {a + 1}", lambda: str(roi.scaled_down_shape((b,), a + 1)[0]))
 
+    # --- huge integers (beyond 2**53, where a detour through floats would show): scale down/up, shapes,
+    #     alignment, intersections, normalisation
+    def big():
+        e = rng.choice([31, 32, 52, 53, 54, 63, 64, 70, 100])
+        return (1 << e) + rng.randint(-3, 3) * rng.choice([1, 1, 7, 1 << 20])
+
+    for _ in range(R.pick(1500, 15000)):
+        a = rng.choice([0, rng.randint(0, 50), big()])
+        b = a + rng.choice([0, 1, rng.randint(0, 100), big()])
+        k = rng.choice([1, 1, 2, 3, 7, 16, rng.randint(1, 1000), (1 << rng.randint(1, 40))])
+        res = []
+
+        def fd2():
+            o = roi.scaled_down_roi((slice(a, b), slice(a, b)), k)
+            res.append(o)
+            return ns(o[0])
+
+        R.corr(f"c17 down {a} {b} {k}", fd2, sig="down|big")
+        if res:
+            up = roi.scaled_up_roi(res[0], k)[0]
+            R.oracle(up.start <= a and a - up.start < k and b <= up.stop and up.stop - b < k,
+                     "scale-down-up", {"a": a, "b": b, "k": k}, f"down={res[0][0]} up={up}")
+        R.corr(f"c17 up {a} {b} {k} N", lambda: ns(roi.scaled_up_roi((slice(a, b), slice(a, b)), k)[0]), sig="up|big")
+        R.corr(f"c17 downshape {b} {k}", lambda: str(roi.scaled_down_shape((b,), k)[0]), sig="downshape|big")
+        sd = roi.scaled_down_shape((b,), k)[0]
+        R.oracle(sd * k >= b and sd * k - b < k, "scaled-down-shape", {"n": b, "k": k}, f"{sd}")
+        x = rng.choice([-1, 1]) * big()
+        R.corr(f"c17 alup {x} {k}", lambda: str(M.align_up(x, k)), sig="align|big")
+        R.corr(f"c17 aldown {x} {k}", lambda: str(M.align_down(x, k)), sig="align|big")
+        u, d = M.align_up(x, k), M.align_down(x, k)
+        R.oracle(u % k == 0 and d % k == 0 and d <= x <= u and u - x < k and x - d < k, "align-contract",
+                 {"x": x, "a": k}, f"up={u} down={d}")
+        c, e = sorted([rng.choice([0, big()]), big()])
+        sa, sb = slice(a, b), slice(c, e)
+        R.corr(f"c17 int3 {enc(sa)} {enc(sb)}", lambda: " ".join(ns(v) for v in roi.slice_intersect3(sa, sb)), sig="int3|big")
+        R.corr(f"c17 int {enc(sa)} {enc(sb)}", lambda: ns(roi.roi_intersect(sa, sb)), sig="int|big")
+        n = big()
+        s_ = slice(rng.choice([None, -big(), a]), rng.choice([None, -big(), b]))
+        R.corr(f"c17 norm {n} {enc(s_)}", lambda: ns(roi.roi_normalise(s_, n)), sig="norm|big")
+        R.corr(f"c17 pad {n} {k} {enc(s_)}", lambda: ns(roi.roi_pad(s_, k, n)), sig="pad|big")
+        # roi_center returns a double: beyond 2**53 only rounding-level agreement can be asked (float stream)
+        cc = roi.roi_center(sa)
+        R.oracle(abs(Fraction(cc) - Fraction(a + b, 2)) <= Fraction(a + b, 2) * Fraction(1, 2**52), "center-big",
+                 {"a": a, "b": b}, f"roi_center={cc!r}")
+
     # --- roi_from_points
     def pts_case(pts, ny, nx, pad, al, tag):
         arr = np.asarray(pts, dtype="float64").reshape(-1, 2)
@@ -290,31 +335,63 @@ def run(R: Run):
         if not fin:
             R.oracle((ys.start, ys.stop, xs.start, xs.stop) == (0, 0, 0, 0), "from-points-nonfinite-only",
                      {"line": line}, f"{res[0]}")
+        else:
+            # the region is the envelope of ALL finite points (outliers included), padded, aligned, clipped
+            def env(vals, n):
+                lo = math.floor(min(vals)) - pad
+                hi = math.ceil(max(vals)) + pad
+                if al:
+                    lo, hi = lo - lo % al, hi + (-hi) % al
+                return (min(max(lo, 0), n), min(max(hi, 0), n))
+
+            want = (env([p[1] for p in fin], ny), env([p[0] for p in fin], nx))
+            got = ((ys.start, ys.stop), (xs.start, xs.stop))
+            R.oracle(got == want, "from-points-not-envelope", {"line": line},
+                     f"region {got} is not the padded/aligned/clipped envelope {want} of the finite points")
+
+    tiny = [1e-6, 1e-9, 1e-10, 3e-11, 1e-11, 1e-13, 2.0**-40, 2.0**-52]
 
     def rnd_coord(n, far):
         r = rng.random()
-        if r < 0.55:
+        if r < 0.35:
             return rng.randint(0, 4 * n) / 4
-        if r < 0.75:
+        if r < 0.55:
+            # just beside an integer / half integer (a snap-to-int "clean-up" would move it)
+            k = rng.randint(0, n) + rng.choice([0, 0, 0.5])
+            v = k + rng.choice([-1, 1]) * rng.choice(tiny)
+            if rng.random() < 0.3:
+                v = float(np.nextafter(k, k + rng.choice([-1, 1])))
+            return v
+        if r < 0.70:
             return rng.randint(-8 * n, 12 * n) / 8
-        if r < 0.85:
+        if r < 0.80:
             return rng.choice([float("nan"), float("inf"), float("-inf")])
         return rng.choice([-1, 1]) * far
 
-    fars = [3e9, 2.0**31, 2.0**31 + 0.5, 2.0**32 + 7, 1e12, 2.0**63, 1e19, 1e300, 2147483647.0, 2147483648.5, 4294967296.0]
-    for _ in range(R.pick(3000, 30000)):
+    fars = [3e9, 2.0**31, 2.0**31 + 0.5, 2.0**32 + 7, 1e12, 2.0**63, 1e19, 1e300, 2147483647.0, 2147483648.5,
+            4294967296.0, 2.0**53 + 2, 9e307, 1e308, 1.7976931348623157e308, 5e-324, 2.0**62]
+    for _ in range(R.pick(4000, 40000)):
         ny, nx = rng.randint(1, 40), rng.randint(1, 40)
         k = rng.randint(0, 5)
         far = rng.choice(fars)
         pts = [(rnd_coord(nx, far), rnd_coord(ny, far)) for _ in range(k)]
+        if k and rng.random() < 0.15:
+            # an outlier that is huge in BOTH coordinates (same or opposite sign)
+            sx_, sy_ = rng.choice([-1, 1]), rng.choice([-1, 1])
+            pts[rng.randrange(k)] = (sx_ * far, sy_ * rng.choice(fars))
         pad = rng.choice([0, 0, 1, 2, 5])
         al = rng.choice([None, None, 1, 2, 4, 16])
         tag = ("empty" if k == 0 else "far" if any(abs(v) >= 2**31 for p in pts for v in p if math.isfinite(v))
-               else "nonfinite" if any(not math.isfinite(v) for p in pts for v in p) else "plain")
+               else "nonfinite" if any(not math.isfinite(v) for p in pts for v in p)
+               else "near-int" if any(0 < abs(v - round(v * 2) / 2) < 1e-5 for p in pts for v in p) else "plain")
         pts_case(pts, ny, nx, pad, al, tag)
     # corpus: the replay of finding F11
     pts_case([(5, 5), (1e12, 7)], 100, 100, 0, None, "far")
     pts_case([(5, 5), (-1e12, 7)], 100, 100, 0, None, "far")
+    # corpus: seeded changes that once escaped (see seeded/C17-*)
+    pts_case([(5, 5), (1e308, 1e308)], 100, 100, 0, None, "far")
+    pts_case([(10, 10), (30.00000000001, 20)], 100, 100, 0, None, "near-int")
+    pts_case([(9.99999999999, 10), (30, 20)], 100, 100, 0, None, "near-int")
 
     R.exhaustive = False
     R.assumptions.append("numpy basic slicing is the oracle of Spec/PySlice (validated exhaustively for small n each run)")
